@@ -20,11 +20,39 @@ PROPS = {
         assumptions=["u32 arguments (the API type)"],
     ),
     "C18": dict(
-        modules=["Fuota.Props.C18", "Fuota.Props.C03a"],
+        modules=["Fuota.Props.C18"],
         suites=[dict(name="d1f", cfg="matrix")],
         rule="one scenario per (session, storage-call index): the call fails once without effect, the same block is "
              "redelivered, the session is continued; the reconstructor runs on instrumented in-memory stores",
         trusted=["crate bitvec / core as compiled"],
         assumptions=["a failed storage operation has no effect on the medium"],
+    ),
+    "C02": dict(
+        modules=["Fuota.Props.C02"],
+        suites=[dict(name="d1", cfg="matrix", keys=["res", "dst", "ds"])],
+        rule="scenario = (N, block size, capacity, contract-respecting matrix, original data, delivery sequence); one "
+             "evaluation = one handle_block call answered by the Rust reconstructor (instrumented in-memory stores) "
+             "and by the model; plus every sequence of length <= 4 (quick) / 6 (thorough) over N <= 3 with a fixed "
+             "6-row matrix; distinct = distinct query text",
+        trusted=["crate bitvec / core as compiled"],
+        assumptions=["received blocks are consistent with the original data and the matrix (the property's premise)"],
+    ),
+    "C03": dict(
+        modules=["Fuota.Props.C03"],
+        suites=[dict(name="d1", cfg="matrix", keys=["res", "nc", "l"])],
+        rule="same scenarios as C02; the oracle is an independent GF(2) elimination over u64 words in the harness "
+             "(rank of the rows accepted since parity processing began, over the frozen unknown columns) and the "
+             "refusal condition unknown > min(bits(V), num_rows)",
+        trusted=["crate bitvec / core as compiled"],
+        assumptions=[],
+    ),
+    "C09": dict(
+        modules=["Fuota.Props.C09"],
+        suites=[dict(name="d1", cfg="matrix", keys=["calls"])],
+        rule="same scenarios as C02; the projection is the full storage-call log of every handle_block call; the "
+             "harness' stores are contract monitors (stored twice / read before store / row shape / parity-before-row / "
+             "index below capacity / buffer length)",
+        trusted=["crate bitvec / core as compiled"],
+        assumptions=["fault-free storage (faults are C18)"],
     ),
 }
